@@ -33,6 +33,7 @@ def main():
     ap.add_argument("--props", default=None)
     ap.add_argument("--tier", default="quick")
     ap.add_argument("--keep", action="store_true")
+    ap.add_argument("--only", default=None, help="restrict the check to shards whose name contains this text (when the full tier would not finish on the changed tree)")
     ap.add_argument("--inplace", action="store_true", help="apply the patch to /repo itself (git apply / git checkout), as the final confirmation does")
     a = ap.parse_args()
     patch = os.path.join(a.seed_dir, "patch.diff")
@@ -90,9 +91,9 @@ def main():
         try:
             for p in props:
                 t0 = time.time()
-                c = sh("VERIF_REPO=%s sh %s/tools/check.sh %s %s --no-cover --no-evidence" % (target, VERIF, p, a.tier))
+                c = sh("VERIF_REPO=%s sh %s/tools/check.sh %s %s --no-cover --no-evidence%s" % (target, VERIF, p, a.tier, (" --only '%s'" % a.only) if a.only else ""))
                 lines = [l for l in c.stdout.splitlines() if l.startswith("VIOLATION") or "counterexample" in l or l.startswith("HARNESS-ERROR") or " -> exit " in l]
-                meta["ran"].append({"cmd": "git apply patch.diff (%s); sh tools/check.sh %s %s --no-cover --no-evidence" % ("in /repo" if a.inplace else "scratch worktree via VERIF_REPO", p, a.tier),
+                meta["ran"].append({"cmd": "git apply patch.diff (%s); sh tools/check.sh %s %s --no-cover --no-evidence%s" % ("in /repo" if a.inplace else "scratch worktree via VERIF_REPO", p, a.tier, (" --only " + a.only) if a.only else ""),
                                     "exit": c.returncode, "wall_s": round(time.time() - t0, 1), "output": [l[:400] for l in lines[:6]]})
                 print(p, "exit", c.returncode, [l[:200] for l in lines[:2]])
         finally:
